@@ -23,6 +23,11 @@ THEOREMS = [
     "Gwcs.Inv.invert_nobox",
     "Gwcs.Inv.inImage_iff",
     "Gwcs.Inv.inImage_scalar_eq_array",
+    "Gwcs.Inv.mask_all_or_nothing",
+    "Gwcs.Inv.mask_rowwise",
+    "Gwcs.Inv.mask_append",
+    "Gwcs.Inv.mask_perm",
+    "Gwcs.Inv.rescued_point_masked",
 ]
 RULE = ("case = (1-D or 2-D WCS with a box, inversion path, fill, masking flag, world points obtained from pixels inside / on the edge / outside "
         "the box plus NaN): analytic path on exact affine WCSs and on undistorted celestial WCSs; iterative path on distorted axis-aligned "
